@@ -28,7 +28,7 @@ CLAIMED = {
        "composition) evaluated on generated ASTs. Proved: Lemma B steps 1-4 (c02_exact_on_single_select) - for INSERT (with/without column list) / CTAS / "
        "VIEW over one SELECT from any number of distinct base tables, any number of column / star items, any trivia, inside the executable guards "
        "stmt_ok and colshape, the model's end-to-end column pairs (extractors + assembly + path enumeration) equal the specification; the unguarded "
-       "statement is refuted by 18 counterexample classes (8 are defects of the implementation, 3 of them new); refutation witnesses of the recorded classes. Step 5 (partial, this round): WHERE c IN (sub-query) (c02_exact_on_select_where_in_partial, Tree/LemmaB5a.v) and one derived table (c02_exact_on_one_derived_table_partial, Tree/LemmaB5c.v, with Part P generalised to ranked flow sets: pairs = ends of maximal chains, dead ends contribute nothing); the unguarded Lemma B statement is additionally refuted by a rendering artefact (equal raw text of two different sub-queries under empty trivia) and repaired by the guard sq_raw_distinct.",
+       "statement is refuted by 18 counterexample classes (8 are defects of the implementation, 3 of them new); refutation witnesses of the recorded classes. Step 5 (partial, this round): WHERE c IN (sub-query) (c02_exact_on_select_where_in_partial, Tree/LemmaB5a.v) and one derived table (c02_exact_on_one_derived_table_partial, Tree/LemmaB5c.v, with Part P generalised to ranked flow sets: pairs = ends of maximal chains, dead ends contribute nothing); the unguarded Lemma B statement is additionally refuted by a rendering artefact (equal raw text of two different sub-queries under empty trivia) and repaired by the guard sq_raw_distinct. Closed since: one level of WHERE..IN in full (c02_exact_on_select_where_in_full, pure shape, incl. column lists and unresolved columns), UNION of two SELECTs in full (c02_exact_on_union), one derived table as an unconditional instance (c02_exact_on_one_derived_table), flat FROM lists with derived tables incl. unresolved inner columns (own guard), one CTE (c02_exact_on_one_cte_partial, own guard).",
   ref="DESIGN.md section 6 C02, section 12", note=TB + "M = S at column level is proved for single-SELECT statements over base tables only; derived tables, WITH, UNION, WHERE-IN and expressions "
        "are checked by correspondence; guarded generator excludes recorded classes K-C02-1..11 (replayed separately). Steps 5a/5c are proved under their own executable syntactic guards (wherein1_shape, one_derived_shape), whose derivation from colshape is not yet proved; several relations next to a derived table, nesting, UNION and WITH at column level remain correspondence-only.",
   tech="Coq proof (Lemma B steps 1-4: model pairs = spec_flows) + Coq model evaluated on the parser's trees + executable Coq specification on generated ASTs"),
@@ -38,7 +38,7 @@ CLAIMED = {
        "DROP removes only isolated tables and disturbs nothing else, single RENAME to a fresh name puts y in x's place; chained RENAME refuted (K-C03-1). "
        "Refinement theorem (c03_full_model_refines, Holder/Refinement.v, 2700 lines): this abstract model is the dataset-level projection of the full "
        "graph model Holder/Build.v (step simulation lifted to scripts; the role accessors agree), for all holder lists satisfying the executable "
-       "hypothesis wf_holder, which is evaluated on the implementation's own holders on every run.",
+       "hypothesis wf_holder, which is evaluated on the implementation's own holders on every run. End to end on the tree model (c03_script_roles_exact_on_lemma_A_fragment, Tree/HolderInv.v + ExtractInv.v + ScriptRoles.v): for every script of statements of the WHOLE Lemma-A fragment (derived tables, unions, WHERE-IN, CTEs, any nesting, any trivia) the sources / targets / intermediates the pipeline reports are the ones the property's definition computes from the SPECIFIED reads and writes of the statements; every holder the extractor returns for ANY tree satisfies the structural invariant the refinement needs (c03_extracted_holders_are_well_formed). Suite S4 compares the implementation with these specified roles (evaluated in Coq) on generated SQL scripts.",
   ref="DESIGN.md section 6 C03", note=TB + "The abstraction of a holder graph is defined and proved in Coq (abs_holder); the harness's own abstraction is cross-checked against it on every script.",
   tech="Coq proof (fold invariant, executable spec) + exhaustive abstract histories + SQL scripts"),
  "C04": dict(
@@ -48,7 +48,7 @@ CLAIMED = {
        "non-empty relational composition of the per-statement dataflows - no acyclicity assumption; also: path enumeration sound and complete, session view "
        "after each statement. The whole pipeline (statement loop with session metadata, "
        "assembly, path enumeration) of the model Tree/Script.v runs inside Coq on the implementation's parse trees for multi-statement chains with "
-       "and without metadata; relational composition of the per-statement dataflows and the created-earlier scenarios are evaluated on the implementation. End to end on the tree model (c04_script_exact_on_core, Tree/ScriptExact.v, 1240 lines = Lemma B composed with the composition theorem): for every script - any number of statements of the Lemma-B fragment with resolved column references, any order, cycles allowed, any trivia, no metadata - extractors + statement loop + assembly + path enumeration report exactly the pairs (a, b) with b reachable from a through >= 1 specified statement flows, a written by none and b read by none; corollaries: the two-statement chain, the dead end at the intermediate table, statement order irrelevant, cyclic scripts report nothing. The implementation is compared with the executable spec_script_pairs (evaluated in Coq together with the theorem's guard) on generated core scripts (suite S3).",
+       "and without metadata; relational composition of the per-statement dataflows and the created-earlier scenarios are evaluated on the implementation. End to end on the tree model (c04_script_exact_on_core, Tree/ScriptExact.v, 1240 lines = Lemma B composed with the composition theorem): for every script - any number of statements of the Lemma-B fragment with resolved column references, any order, cycles allowed, any trivia, no metadata - extractors + statement loop + assembly + path enumeration report exactly the pairs (a, b) with b reachable from a through >= 1 specified statement flows, a written by none and b read by none; corollaries: the two-statement chain, the dead end at the intermediate table, statement order irrelevant, cyclic scripts report nothing. The implementation is compared with the executable spec_script_pairs (evaluated in Coq together with the theorem's guard) on generated core scripts (suite S3). Further: scripts with UNION statements, plain SELECTs and no-data statements; scripts with WHERE..IN statements under the executable guard dead_ends_okb (the unguarded statement is refuted: K-C04-3 at script level); the session clause c04_created_table_is_known_to_later_star (CTAS then SELECT * of it under ANY catalog, stale definitions included).",
   ref="DESIGN.md section 6 C04", note=TB + "Composition is proved for scripts inside c04_hyps (about 90% of the scripts the checks generate; counted per run) and checked (S1) on the "
        "implementation for all; unresolved columns resolved at script level and DROP/RENAME are outside the theorem; recorded classes K-C04-1/2/3.",
   tech="Coq proof (union of statement graphs, relational composition, paths, session) + full-pipeline model correspondence on chains"),
@@ -64,7 +64,7 @@ CLAIMED = {
        "reported path but the first is owned by a target or intermediate table and every column but the last by a dataset some statement reads. "
        "Theorems about get_column_lineage / all_simple_paths on the full lineage graph: >=2 nodes (fix F4), duplicate-free chain from an in-degree-0 column "
        "to an out-degree-0 table-owned column, enumeration sound and complete, node equality an equivalence, nodes retrievable, one owner per resolved column. "
-       "Model of _build_digraph + paths fed with the implementation's per-statement holders for corpus and generated scripts.",
+       "Model of _build_digraph + paths fed with the implementation's per-statement holders for corpus and generated scripts. End to end: c06_script_paths_well_formed_on_core (for scripts of core statements the hypotheses are PROVED of the holders the extractors produce, so every reported path has >= 2 nodes and projects onto the script's own source / intermediate / target tables); c06_paths_between_source_and_target_tables is the strong form for any c06_hyps script.",
   ref="DESIGN.md section 6 C06", note=TB + "The projection theorem's hypotheses are evaluated in Coq on the implementation's own holders (about 90% of the results lie inside); outside "
        "them (DROP/RENAME: K-C06-1; scalar sub-queries: K-C06-2) and for all results the projection is evaluated on the implementation (S).",
   tech="Coq proof (induction on fuel/paths) + holder-level correspondence"),
@@ -72,7 +72,7 @@ CLAIMED = {
   text="Theorems: unquoted identifiers case-insensitive, quoting a lower-case identifier changes nothing, separators/comments/extra semicolons do not change "
        "the statement list, every navigation combinator of the extractors commutes with erasing whitespace/comment/meta segments on well-formed trees, and (corollary of "
        "Lemma A) the whole extractor's table lineage on the core fragment does not depend on the trivia between tokens. "
-       "Metamorphic comparison on the implementation under 11 token-level rewrites per dialect; tie on the rewritten text. Column level (c07_columns_layout_invariant_on_single_select, corollary of Lemma B): the end-to-end column pairs of INSERT/CTAS/VIEW over one SELECT from base tables do not depend on the trivia. Scripts in which ONE statement is rewritten (with metadata, verbatim repeats, re-created tables) are compared on the implementation.",
+       "Metamorphic comparison on the implementation under 11 token-level rewrites per dialect; tie on the rewritten text. Column level (c07_columns_layout_invariant_on_single_select, corollary of Lemma B): the end-to-end column pairs of INSERT/CTAS/VIEW over one SELECT from base tables do not depend on the trivia. Scripts in which ONE statement is rewritten (with metadata, verbatim repeats, re-created tables) are compared on the implementation. Spelling (Tree/LemmaASpell.v, 3600 lines): the renderer is parameterised by a spelling of identifier leaves and of keyword leaves; every case-only change, double quotes, backticks and brackets are admissible spellings, and under any admissible spelling the whole extractor reports the specified tables (c07_exact_under_any_spelling, c07_tables_spelling_invariant_on_core), and the specified column pairs on the single-SELECT fragment (c07_columns_exact_under_any_spelling_on_single_select).",
   ref="DESIGN.md section 6 C07", note=TB + "Invariance of the whole extractor at column level and outside the core fragment is checked (I(rewrite) = I(plain), I = M on rewritten trees), not proved; "
        "tree well-formedness assumptions of the theorems are monitored on every tree.",
   tech="Coq proof (string laws, splitter, strong induction on rose trees) + metamorphic rewrites"),
@@ -110,7 +110,7 @@ CLAIMED = {
        "(c13_metadata_never_changes_tables_on_core, c13_exact_tables_any_provider; any catalog, any trivia, any statement size); a provider without "
        "metadata is never consulted (analysis independent of what it would answer); refutation witnesses K-C13-1/2. On the "
        "implementation: table lineage unchanged under every metadata assignment, unknown tables same answer, star expansion, unqualified attribution "
-       "(lists/lacks/unknown), target positions; tie of the tree model with a provider view.",
+       "(lists/lacks/unknown), target positions; tie of the tree model with a provider view. Column level with a catalog (Ast/SpecMeta.v, Tree/LemmaBMeta*.v): c13_columns_exact_with_metadata_plain_items (listers of an unqualified column, positions of a known target, explicit lists - any catalog inside md_ok), c13_star_expands_to_catalog_columns, c13_unknown_tables_same_answer, c13_known_target_names_positions(_spec); the unguarded statement refuted by 13 classes (K-C13-3/4 new). Suite S_md compares the implementation with spec_pairs_md evaluated in Coq.",
   ref="DESIGN.md section 6 C13", note=TB + "The column-level refinement clauses (star expansion, unqualified attribution, target positions) are evaluated on the implementation for "
        "templated statements, not proved; the table-level clause is proved on the core fragment and refuted outside it (DROP).",
   tech="Coq proof (Lemma A for any provider; provider independence) + clause scenarios + model correspondence with metadata"),
@@ -130,7 +130,7 @@ CLAIMED = {
   tech="Coq proof (induction over op histories) + exhaustive histories + line-level pre-emption"),
  "C16": dict(
   text="Theorems about escape_identifier_name and the Schema/Table constructors: case-insensitivity, quoting laws, last-dot split, idempotence on stable names, "
-       "position theorem; refutations for quoted upper-case names (K-C16-1/2). Exhaustive spellings through the real functions and real SQL per dialect.",
+       "position theorem; refutations for quoted upper-case names (K-C16-1/2). Exhaustive spellings through the real functions and real SQL per dialect. Whole extractor: with a different admissible spelling for every syntactic role of an identifier the reads and writes are the specified ones (c16_one_entity_per_identifier_in_every_position).",
   ref="DESIGN.md section 6 C16", note=TB + "ASCII identifiers only.",
   tech="Coq proof (string induction, 256-case sweeps) + exhaustive spelling x position"),
  "C17": dict(
